@@ -94,13 +94,13 @@ def identity_exit_only_for_one(ctx, rule='STRETCH/unscaled-exit-only-for-factor-
       ctx.ob(rule, fi, ex, False, why, construct=cons, unknown=why)
 
 
-def fields_named(ctx, tpaths):
+def fields_named(ctx, tpaths, names=('shift_sequence_times', 'stretch_note_sequence', 'adjust_notesequence_times'), rule=None):
   """Location-independent (a necessary condition): a function that moves "every note and event time" has to reach every repeated
   field of NoteSequence whose elements carry a time (music.proto, via the schema).  Unless it walks the fields generically
   (ListFields / DESCRIPTOR), a container it never names - neither as an attribute nor as a string handed to getattr - cannot be
   reached: its events keep their old times."""
   containers = sorted(set(p[0] for p in tpaths if len(p) >= 2 and p[0] != 'subsequence_info'))
-  for name in ('shift_sequence_times', 'stretch_note_sequence', 'adjust_notesequence_times'):
+  for name in names:
     fi = ctx.func(SL + ':' + name)
     fn = fi.node
     if any(isinstance(n, ast.Attribute) and n.attr in ('ListFields', 'DESCRIPTOR', 'fields_by_name') for n in ast.walk(fn)):
@@ -110,7 +110,7 @@ def fields_named(ctx, tpaths):
       continue
     named = set(n.attr for n in nodes if isinstance(n, ast.Attribute)) | set(n.value for n in nodes if isinstance(n, ast.Constant) and isinstance(n.value, str))
     missing = [c for c in containers if c not in named]
-    ctx.ob('UNIFORM/fields-named', fi, fn, not missing, '%s names all %d time-bearing containers' % (name, len(containers)) if not missing else
+    ctx.ob(rule or 'UNIFORM/fields-named', fi, fn, not missing, '%s names all %d time-bearing containers' % (name, len(containers)) if not missing else
            '%s never names %s (a repeated field of NoteSequence whose elements carry a time): its events are not moved with the rest' % (name, ', '.join(missing)),
            construct='%s reaches every time-bearing container' % name, definite=True)
 
